@@ -106,7 +106,7 @@ func writeEvidence(sum *Summary, prop, tier string, opt options, l *Loaded, wall
 	if err != nil {
 		return err
 	}
-	dir := filepath.Join(opt.verif, "evidence")
+	dir := filepath.Join(opt.outDir(), "evidence")
 	os.MkdirAll(dir, 0755)
 	return os.WriteFile(filepath.Join(dir, prop+".json"), b, 0644)
 }
